@@ -85,14 +85,19 @@ func (w *ConfigurationWatcher) Start(ch chan<- controller.ID) error {
 	w.cancel = cancel
 	go func() {
 		for event := range eventCh {
-			ch <- controller.NewID(configapi.TransactionID{
-				Target: event.Configuration.ID.Target,
-				Index:  event.Configuration.Committed.Target,
-			})
-			ch <- controller.NewID(configapi.TransactionID{
-				Target: event.Configuration.ID.Target,
-				Index:  event.Configuration.Applied.Target,
-			})
+			// Wake the Transactions the change of the Configuration can unblock: the ones being committed and applied,
+			// the changes behind them (they wait for the committed/applied target to be done, whether it completed,
+			// failed or was aborted) and the ones at the committed/applied revision (they may now be rolled back).
+			committed, applied := event.Configuration.Committed, event.Configuration.Applied
+			for _, index := range []configapi.Index{
+				committed.Target, committed.Target + 1, committed.Index, configapi.Index(committed.Revision),
+				applied.Target, applied.Target + 1, applied.Index, configapi.Index(applied.Revision),
+			} {
+				ch <- controller.NewID(configapi.TransactionID{
+					Target: event.Configuration.ID.Target,
+					Index:  index,
+				})
+			}
 		}
 	}()
 	return nil
